@@ -13,18 +13,18 @@ inductive TStep where
   | verylow | proot | sym (relc : Option Str) | binarize (bare : Bool) | collapse | uncollapse
 
 def TStep.apply : TStep → Tree → Except Err Tree
-  | .rootAttach, t => .ok (rootAttach t)
+  | .rootAttach, t => .ok (Tree.rootAttach t)
   | .negra, t => .ok (negraMarkHeads t)
   | .rules p, t => markHeadsByRules (some p) none t
   | .boyd, t => boydSplit t
-  | .raising, t => .ok (raising t)
+  | .raising, t => .ok (Tree.raising t)
   | .topnode, t => .ok (addTopnode t)
   | .verylow, t => .ok (punctuationVerylow t)
   | .proot, t => .ok (punctuationRoot t)
   | .sym r, t => .ok (punctuationSymetrify r t)
   | .binarize b, t => Tree.binarize b t
-  | .collapse, t => .ok (collapse t)
-  | .uncollapse, t => .ok (uncollapse t)
+  | .collapse, t => .ok (Tree.collapse t)
+  | .uncollapse, t => .ok (Tree.uncollapse t)
 
 def applySteps : List TStep → Tree → Except Err Tree
   | [], t => .ok t
